@@ -306,6 +306,8 @@ impl DtlsTransport {
                 debug!("DTLS handshake failed: {e} (remote={})", inner_clone.conn.remote_addr.read());
                 *inner_clone.state.lock() = DtlsState::Failed;
                 let _ = inner_clone.state_tx.send(DtlsState::Failed);
+                #[cfg(rustrtc_verif)]
+                inner_clone.vemit("failed", serde_json::json!({"reason": format!("{e}")}));
             }
             // Connected state is set inside handshake now
         };
@@ -445,6 +447,10 @@ impl DtlsInner {
         if *self.state.lock() != DtlsState::Handshaking {
             return;
         }
+        #[cfg(rustrtc_verif)]
+        if let Some(records) = &ctx.last_flight_records {
+            self.vflight(records, true, "timer");
+        }
         if let Some(records) = &ctx.last_flight_records
             && let Err(e) = self.conn.send_dtls_record_batch(records).await
         {
@@ -488,11 +494,15 @@ impl DtlsInner {
                     let payload = match self.try_decrypt_record(&record, ctx, is_client) {
                         Ok(p) => p,
                         Err(e) => {
+                            #[cfg(rustrtc_verif)]
+                            self.vemit("rec", serde_json::json!({"ctype": record.content_type as u8, "epoch": record.epoch, "rseq": record.sequence_number, "ok": false, "len": record.payload.len()}));
                             warn!("{}", e);
                             break;
                         }
                     };
 
+                    #[cfg(rustrtc_verif)]
+                    self.vemit("rec", serde_json::json!({"ctype": record.content_type as u8, "epoch": record.epoch, "rseq": record.sequence_number, "ok": true, "len": payload.len()}));
                     self.handle_decrypted_record(
                         record.content_type,
                         payload,
@@ -621,6 +631,8 @@ impl DtlsInner {
                         // CloseNotify
                         *self.state.lock() = DtlsState::Closed;
                         let _ = self.state_tx.send(DtlsState::Closed);
+                        #[cfg(rustrtc_verif)]
+                        self.vemit("closed", serde_json::json!({"why": "close_notify"}));
                     }
                 }
             }
@@ -657,8 +669,12 @@ impl DtlsInner {
                             ctx.recv_message_seq = msg.message_seq;
                             ctx.post_hvr = false;
                             // Fall through to process this message normally
+                            #[cfg(rustrtc_verif)]
+                            self.vhs(&msg, "resync", ctx);
                         } else {
                             // Duplicate
+                            #[cfg(rustrtc_verif)]
+                            self.vhs(&msg, "dup", ctx);
                             // Special case: ClientHello on Server (to trigger retransmit)
                             if msg.msg_type == HandshakeType::ClientHello && !is_client {
                                 self.handle_handshake_message(
@@ -687,6 +703,8 @@ impl DtlsInner {
                             ctx.recv_message_seq = msg.message_seq;
                             ctx.post_hvr = false;
                         } else {
+                            #[cfg(rustrtc_verif)]
+                            self.vhs(&msg, "ooo", ctx);
                             debug!(
                                 "Received out-of-order handshake message: got {}, expected {}",
                                 msg.message_seq, ctx.recv_message_seq
@@ -713,6 +731,8 @@ impl DtlsInner {
                         }
 
                         ctx.incomplete_handshake.extend_from_slice(&msg.body[..]);
+                        #[cfg(rustrtc_verif)]
+                        self.vhs(&msg, "frag", ctx);
 
                         if ctx.incomplete_handshake.len() < msg.total_length as usize {
                             // Still incomplete, wait for more fragments
@@ -738,6 +758,8 @@ impl DtlsInner {
                     };
 
                     ctx.recv_message_seq += 1;
+                    #[cfg(rustrtc_verif)]
+                    self.vhs(&processing_msg, "acc", ctx);
 
                     if processing_msg.msg_type != HandshakeType::Finished
                         && processing_msg.msg_type != HandshakeType::HelloRequest
@@ -841,6 +863,8 @@ impl DtlsInner {
             return Err(e);
         }
         ctx.peer_certificate = Some(leaf_certificate.clone());
+        #[cfg(rustrtc_verif)]
+        self.vemit("cert", serde_json::json!({"disp": "acc", "fph": crate::verif::hash32(actual_fingerprint.as_bytes()), "expected": ctx.expected_remote_fingerprint.is_some()}));
 
         Ok(())
     }
@@ -856,6 +880,10 @@ impl DtlsInner {
         }
 
         if ctx.server_random.is_some() {
+            #[cfg(rustrtc_verif)]
+            if let Some(records) = &ctx.last_flight_records {
+                self.vflight(records, true, "dupCH");
+            }
             if let Some(records) = &ctx.last_flight_records
                 && let Err(e) = self.conn.send_dtls_record_batch(records).await
             {
@@ -1118,6 +1146,8 @@ impl DtlsInner {
         )?);
         ctx.message_seq += 1;
 
+        #[cfg(rustrtc_verif)]
+        self.vflight(&flight_records, false, "first");
         self.conn.send_dtls_record_batch(&flight_records).await?;
         ctx.last_flight_records = Some(flight_records);
 
@@ -1213,6 +1243,10 @@ impl DtlsInner {
         trace!("Session keys derived (Server)");
         ctx.session_crypto = Some(create_session_crypto(keys.clone())?);
         ctx.session_keys = Some(keys);
+        #[cfg(rustrtc_verif)]
+        if let Some(k) = &ctx.session_keys {
+            self.vemit("keys", serde_json::json!({"kh": vkeyhash(k), "ems": ctx.ems_negotiated}));
+        }
 
         Ok(())
     }
@@ -1311,6 +1345,8 @@ impl DtlsInner {
                 ctx.session_keys.as_ref(),
                 is_client,
             )?);
+            #[cfg(rustrtc_verif)]
+            self.vflight(&flight_records, false, "first");
             self.conn.send_dtls_record_batch(&flight_records).await?;
             ctx.last_flight_records = Some(flight_records);
             // message_seq += 1; // End of handshake
@@ -1322,6 +1358,8 @@ impl DtlsInner {
                 self.write_epoch.store(ctx.epoch, Ordering::SeqCst);
                 self.write_seq.store(ctx.sequence_number, Ordering::SeqCst);
                 let _ = self.state_tx.send(state);
+                #[cfg(rustrtc_verif)]
+                self.vemit("connected", serde_json::json!({"kh": vkeyhash(keys), "profile": ctx.srtp_profile.map(|p| p as i64).unwrap_or(-1)}));
                 debug!("DTLS handshake complete (server role) (remote={})", self.conn.remote_addr.read());
                 // Clear ephemeral secret as handshake is complete
                 ctx.local_secret = None;
@@ -1355,6 +1393,8 @@ impl DtlsInner {
                         self.write_epoch.store(ctx.epoch, Ordering::SeqCst);
                         self.write_seq.store(ctx.sequence_number, Ordering::SeqCst);
                         let _ = self.state_tx.send(state);
+                        #[cfg(rustrtc_verif)]
+                        self.vemit("connected", serde_json::json!({"kh": vkeyhash(keys), "profile": ctx.srtp_profile.map(|p| p as i64).unwrap_or(-1)}));
                         debug!("DTLS handshake complete (client role) (remote={})", self.conn.remote_addr.read());
                         ctx.local_secret = None;
                     }
@@ -1427,6 +1467,8 @@ impl DtlsInner {
                 None,
                 is_client,
             )?;
+            #[cfg(rustrtc_verif)]
+            self.vflight(std::slice::from_ref(&buf), false, "first");
             self.conn.send(&buf).await?;
             ctx.last_flight_records = Some(vec![buf]);
             ctx.message_seq += 1;
@@ -1527,6 +1569,8 @@ impl DtlsInner {
                 }
                 ctx.peer_public_key = Some(server_key_exchange.public_key);
                 ctx.server_key_exchange_verified = true;
+                #[cfg(rustrtc_verif)]
+                self.vemit("ske", serde_json::json!({"disp": "verified"}));
             }
         }
         Ok(())
@@ -1640,6 +1684,10 @@ impl DtlsInner {
         };
         ctx.session_crypto = Some(create_session_crypto(keys.clone())?);
         ctx.session_keys = Some(keys);
+        #[cfg(rustrtc_verif)]
+        if let Some(k) = &ctx.session_keys {
+            self.vemit("keys", serde_json::json!({"kh": vkeyhash(k), "ems": ctx.ems_negotiated}));
+        }
 
         let mut flight_records: Vec<Vec<u8>> = Vec::new();
 
@@ -1688,6 +1736,8 @@ impl DtlsInner {
             ctx.session_keys.as_ref(),
             is_client,
         )?);
+        #[cfg(rustrtc_verif)]
+        self.vflight(&flight_records, false, "first");
         self.conn.send_dtls_record_batch(&flight_records).await?;
         ctx.last_flight_records = Some(flight_records);
         ctx.message_seq += 1;
@@ -1713,6 +1763,16 @@ impl DtlsInner {
             std::time::Duration::from_secs(1),
         );
         retransmit_interval.set_missed_tick_behavior(tokio::time::MissedTickBehavior::Skip);
+        #[cfg(rustrtc_verif)]
+        let mut retransmit_interval = match crate::verif::get_override("dtls_retransmit_ms") {
+            Some(ms) if ms > 0 => {
+                let d = std::time::Duration::from_millis(ms as u64);
+                let mut i = tokio::time::interval_at(tokio::time::Instant::now() + d, d);
+                i.set_missed_tick_behavior(tokio::time::MissedTickBehavior::Skip);
+                i
+            }
+            _ => retransmit_interval,
+        };
 
         // Watch the ICE socket so we can detect peer disappearance immediately
         // rather than spinning on retransmits forever.
@@ -1721,6 +1781,13 @@ impl DtlsInner {
         // Handshake deadline — prevents the task from living forever if the peer
         // never responds.  Once `Connected` the deadline is disabled.
         let handshake_deadline = tokio::time::Instant::now() + DTLS_HANDSHAKE_TIMEOUT;
+        #[cfg(rustrtc_verif)]
+        let handshake_deadline = match crate::verif::get_override("dtls_deadline_ms") {
+            Some(ms) if ms > 0 => {
+                tokio::time::Instant::now() + std::time::Duration::from_millis(ms as u64)
+            }
+            _ => handshake_deadline,
+        };
         let handshake_timeout = tokio::time::sleep_until(handshake_deadline);
         tokio::pin!(handshake_timeout);
 
@@ -1840,6 +1907,8 @@ impl DtlsInner {
                 }
                 _ = retransmit_interval.tick() => {
                     self.handle_retransmit(&ctx, is_client).await;
+                    #[cfg(rustrtc_verif)]
+                    self.vsnap(&ctx, "tick");
                 }
                 packet = handshake_rx.recv() => {
                     let Some(packet) = packet else {
@@ -1854,6 +1923,8 @@ impl DtlsInner {
                             return Err(e);
                         }
                     }
+                    #[cfg(rustrtc_verif)]
+                    self.vsnap(&ctx, "pkt");
                 }
             }
         }
@@ -1917,6 +1988,8 @@ impl DtlsInner {
     ) -> Result<Vec<u8>> {
         let buf =
             self.build_handshake_record(msg, epoch, sequence_number, session_keys, is_client)?;
+        #[cfg(rustrtc_verif)]
+        self.vflight(std::slice::from_ref(&buf), false, "first");
         if let Err(e) = self.conn.send(&buf).await {
             if let Some(io_err) = e.downcast_ref::<std::io::Error>() {
                 match io_err.kind() {
@@ -2230,6 +2303,127 @@ impl HandshakeContext {
             srtp_profile: None,
             expected_remote_fingerprint,
             server_key_exchange_verified: false,
+        }
+    }
+}
+
+// ---------------------------------------------------------------------------
+// Verification hooks (compiled only with `--cfg rustrtc_verif`).
+#[cfg(rustrtc_verif)]
+fn vstate_name(s: &DtlsState) -> &'static str {
+    match s {
+        DtlsState::New => "New",
+        DtlsState::Handshaking => "Handshaking",
+        DtlsState::Connected(..) => "Connected",
+        DtlsState::Failed => "Failed",
+        DtlsState::Closed => "Closed",
+    }
+}
+
+#[cfg(rustrtc_verif)]
+fn vkeyhash(keys: &SessionKeys) -> u32 {
+    let mut v = Vec::with_capacity(48 + 64 + 40);
+    v.extend_from_slice(&keys.master_secret);
+    v.extend_from_slice(&keys.client_random);
+    v.extend_from_slice(&keys.server_random);
+    v.extend_from_slice(&keys.client_write_key);
+    v.extend_from_slice(&keys.server_write_key);
+    v.extend_from_slice(&keys.client_write_iv);
+    v.extend_from_slice(&keys.server_write_iv);
+    crate::verif::hash32(&v)
+}
+
+/// Short name of a DTLS record for the event log: handshake type for plaintext
+/// handshake records, "FIN" for an encrypted handshake record, content type otherwise.
+#[cfg(rustrtc_verif)]
+fn vrecord_name(rec: &[u8]) -> &'static str {
+    if rec.len() < 13 {
+        return "?";
+    }
+    let epoch = u16::from_be_bytes([rec[3], rec[4]]);
+    match rec[0] {
+        20 => "CCS",
+        21 => "ALERT",
+        23 => "APP",
+        22 if epoch > 0 => "FIN",
+        22 if rec.len() > 13 => match rec[13] {
+            0 => "HR",
+            1 => "CH",
+            2 => "SH",
+            3 => "HVR",
+            11 => "CERT",
+            12 => "SKE",
+            13 => "CR",
+            14 => "SHD",
+            15 => "CV",
+            16 => "CKE",
+            20 => "FIN0",
+            _ => "HS?",
+        },
+        _ => "?",
+    }
+}
+
+#[cfg(rustrtc_verif)]
+impl DtlsInner {
+    fn vinst(&self) -> String {
+        match &self.conn.label {
+            Some(l) => l.clone(),
+            None => (if self.is_client { "C" } else { "S" }).to_string(),
+        }
+    }
+
+    fn vemit(&self, ev: &'static str, fields: serde_json::Value) {
+        if crate::verif::enabled() {
+            crate::verif::emit("dtls", &self.vinst(), ev, fields);
+        }
+    }
+
+    /// A flight (or single record) is about to be handed to the socket.
+    fn vflight(&self, records: &[Vec<u8>], rtx: bool, why: &'static str) {
+        if crate::verif::enabled() {
+            let msgs: Vec<&'static str> = records.iter().map(|r| vrecord_name(r)).collect();
+            let state = vstate_name(&self.state.lock());
+            self.vemit(
+                "flight",
+                serde_json::json!({"msgs": msgs, "n": records.len(), "rtx": rtx, "why": why, "state": state}),
+            );
+        }
+    }
+
+    /// Disposition of one received handshake message / fragment.
+    fn vhs(&self, msg: &HandshakeMessage, disp: &'static str, ctx: &HandshakeContext) {
+        if crate::verif::enabled() {
+            let state = vstate_name(&self.state.lock());
+            self.vemit(
+                "hs",
+                serde_json::json!({"type": msg.msg_type as u8, "mseq": msg.message_seq, "disp": disp,
+                    "off": msg.fragment_offset, "flen": msg.fragment_length,
+                    "total": msg.total_length, "blen": msg.body.len(),
+                    "bh": crate::verif::hash32(&msg.body),
+                    "recv_seq": ctx.recv_message_seq,
+                    "buffered": ctx.incomplete_handshake.len(),
+                    "state": state}),
+            );
+        }
+    }
+
+    fn vsnap(&self, ctx: &HandshakeContext, at: &'static str) {
+        if crate::verif::enabled() {
+            let state = vstate_name(&self.state.lock());
+            self.vemit(
+                "snap",
+                serde_json::json!({"at": at, "client": self.is_client, "state": state,
+                    "msg_seq": ctx.message_seq, "recv_seq": ctx.recv_message_seq,
+                    "epoch": ctx.epoch, "read_epoch": ctx.read_epoch,
+                    "have_keys": ctx.session_keys.is_some(),
+                    "ske_verified": ctx.server_key_exchange_verified,
+                    "peer_cert_set": ctx.peer_certificate.is_some(),
+                    "post_hvr": ctx.post_hvr,
+                    "frag_len": ctx.incomplete_handshake.len(),
+                    "tlen": ctx.handshake_messages.len(),
+                    "th": crate::verif::hash32(&ctx.handshake_messages)}),
+            );
         }
     }
 }
